@@ -90,6 +90,39 @@ CLAIMED.update({
     ),
 })
 
+CLAIMED.update({
+    "C05": (
+        "reaching-definition / dominance check that every value store derives from the shared checker; taint analysis of raw __dict__ keys to action lookups (static, ast)",
+        "Narrow: decides that the input channels funnel into one checker (every store of an action's value in _load_env_vars, _apply_actions, _positional_optionals and every Action.__call__ derives from _check_value_key / the action's _check_type; ActionYesNo's type= hook is its _check_type function) and that raw, possibly clash-marked keys read from a namespace's __dict__ never reach _find_action* without del_clash_mark. Not decided: equality of results across channels for all values; loader equivalence across parser modes.",
+        "Trusted: argparse applies the registered type= callable to command-line values; name-based recognition of checker calls.",
+        "DESIGN.md section 3 / C05",
+    ),
+    "C08": (
+        "interprocedural alias / mutation summaries over the call graph (effect analysis) with copy semantics of clone/recreate_branches/list()/dict()/deepcopy; CFG restore-on-all-paths for cwd and argparse.Namespace; who-may-write checks (static, ast)",
+        "Decides, for every path of the code below the public API, whether a call writes to an object it did not create: parse_args(args, namespace), parse_object(cfg_obj, cfg_base), parse_env(env), validate, dump, save, merge_config, strip_unknown, instantiate_classes and the value adapters have no TOP/INTERIOR write to their arguments; the copy primitives really copy Namespace/dict/list; cwd and argparse.Namespace are restored on every normal and exceptional path; os.chdir / os.environ / argparse attributes / action.default have named owners. Possible writes below tuples (where clone() stops) and through ** splats of unknown keys are listed as observations. Not decided: instance freshness of instantiate_classes.",
+        "Trusted: external callees mutate only through the mutating-method vocabulary; closures analysed with their own parameters only; name-based call resolution (counts in evidence); isinstance refinement of container kinds.",
+        "DESIGN.md section 3 / C08",
+    ),
+    "C09": (
+        "ContextVar set/reset discipline via CFG must-pass queries incl. exception edges; lexical with-gates for write-before-read; request-flag typestate; effect summaries for shared mutable objects and terminal actions (static, ast)",
+        "Decides the anchored carriers of state between calls: all 18 ContextVar.set sites are scoped (reset in a finally covering the yield), extent-nested, or written before every read; the print_config request is deleted before exit and discarded on every reported error; shared mutable objects (mutable ContextVar defaults, mutable default parameters, class-level mutable attributes, the action's sub_add_kwargs) are never written in place while parsing; terminal actions leave parser, action and namespace untouched; parser.args written before read; fresh class parser per adaptation. Not decided: equality with a fresh parser over all operation histories.",
+        "Trusted: argparse dispatches to Action.__call__ / _parse_optional only from inside _parse_known_args; idempotent caches (_check_type_kwargs, lazily added shtab action) are deliberately not flagged.",
+        "DESIGN.md section 3 / C09",
+    ),
+    "C10": (
+        "control-dependence check of every deserialising conversion site (guarded by a not-yet-converted test, or arm accepts its own output); dominance of validate over parse returns (static, ast)",
+        "Narrow: decides that the early-outs for already adapted values exist on every deserialising conversion of adapt_typehints / adapt_class_type, and that every parse result was validated and parse_object re-applies the checker. Not decided: idempotence of normalisation for all values (paths, defaults filled in on second parse, byte-identical dumps).",
+        "Trusted: validate_annotated returns a base-type value; conversion sites are found by callee name.",
+        "DESIGN.md section 3 / C10",
+    ),
+    "C11": (
+        "flow-sensitive key-kind analysis (clash-mark symmetry) of _namespace.py; belief-contradiction check between _parse_key and the accessors consuming its result (static, ast)",
+        "Decides two internal-consistency obligations every operation history depends on: keys are marked on the way into __dict__, looked up marked and un-marked on every way out, the mark being idempotent by construction; and every accessor that consumes _parse_key's result narrows or tolerates each kind of parent (Namespace / dict / None) it can receive. Not decided: agreement with a dictionary model over all operation histories.",
+        "Known finding F10 (keys below a dict parent: __setitem__ can set what __getitem__ cannot find).",
+        "DESIGN.md section 3 / C11",
+    ),
+})
+
 NOT_APPLICABLE = {
     "C07": "relational equality of the behaviour of four declaration styles implemented in four modules; no clause is visible in the shape of any one code path, and the only structural candidate (prefixing consistency in _move_parser_actions) is a lint whose violation need not change behaviour (DESIGN.md section 3 / C07)",
     "C13": "soundness of the library's own static parameter resolver over all user programs; decided per program only against the interpreter (an execution oracle); the single wiring clause is too thin to count as deciding anything (DESIGN.md section 3 / C13)",
